@@ -15,7 +15,7 @@ use vpmodel::spec::{mono, ChainSpec};
 pub const DEF: PropDef = PropDef {
     id: "C10",
     level: "fault_enumeration",
-    rule: "fault plans applied to generated chains stored in 2..4 blk files, for the three file-producing callbacks. Enumerated part (fixed generated 6-block chain): every height x input fault {blk file removed, emptied, truncated at 7 positions of the block incl. inside the length prefix and at the last byte (thorough tier: at every byte of one block), index offset past EOF - just beyond the end, and 2^32 / 2^40 above the position of a real block}; 27 RLIMIT_FSIZE limits from 0 to above the largest output file (SIGXFSZ ignored, so writes fail with EFBIG) on an index pre-compacted to table files; ENOSPC injected (strace) at the k-th write to any dump file for k=1..8 and at the first and second write to each single dump file; SIGKILL injected on entry of the k-th openat/write/rename/close touching a dump file for k=1..6 each. Start-up failures {blockchain dir missing, index dir missing, index CURRENT naming a missing manifest, rejected range (--end <= --start), dump folder missing, dump folder path is a regular file}: exit != 0 and no final-named file. One enumerated chain produces > 4 MB per file so that writes fail mid-run, before the final flush. Random part: random chains, ranges and fault plans, a quarter of them into a dump folder that already holds longer stale *.tmp files of an earlier failed run. Oracles: (a) exit 0 => every expected final-named file present and byte-identical to the undisturbed run, no *.tmp; (b) input fault hitting a processed height h => exit != 0, 'Error at height h', no final-named file; (c) output fault that fires => exit != 0 and no final-named file; (d) kill at any point => every final-named file that exists is byte-identical to the undisturbed output. Non-trivial = the fault actually fired (for input/output faults: in the read/write path of the run, not at start-up); distinct by (callback, fault kind, position).",
+    rule: "fault plans applied to generated chains stored in 2..4 blk files, for the three file-producing callbacks. Enumerated part (fixed generated 6-block chain): every height x input fault {blk file removed, emptied, truncated at 7 positions of the block incl. inside the length prefix and at the last byte (thorough tier: at every byte of one block), index offset past EOF - just beyond the end, and 2^32 / 2^40 above the position of a real block}; 27 RLIMIT_FSIZE limits from 0 to above the largest output file (SIGXFSZ ignored, so writes fail with EFBIG) on an index pre-compacted to table files; ENOSPC injected (strace) at the k-th write to any dump file for k=1..8 and at the first and second write to each single dump file; SIGKILL injected on entry of the k-th openat/write/rename/close touching a dump file for k=1..6 each. Start-up failures {blockchain dir missing, index dir missing, index CURRENT naming a missing manifest, rejected range (--end <= --start), dump folder missing, dump folder path is a regular file}: exit != 0 and no final-named file. One enumerated chain produces > 4 MB per file so that writes fail mid-run, before the final flush. Random part: random chains, ranges and fault plans, a quarter of them into a dump folder that already holds longer stale *.tmp files of an earlier failed run. Oracles: (a) exit 0 => every expected final-named file present and byte-identical to the undisturbed run, no *.tmp; (b) input fault hitting a processed height h => exit != 0, 'Error at height h', no final-named file; (c) output fault that fires => exit != 0 and no final-named file; (d) kill at any point => every final-named file that exists is byte-identical to the undisturbed output. Non-trivial = the fault actually fired (for input/output faults: in the read/write path of the run, not at start-up); distinct by (callback, fault kind, position). A 125 000-address chain makes the balances (5 MB) and unspent (15 MB) tables exceed the 4 MB buffer: RLIMIT_FSIZE / ENOSPC / kill plans for both.",
     assumptions: &["crash points are syscall-granular (the directory can only change at syscalls); power loss / fsync ordering is outside the statement", "physical order inside a file equals height order, so the first height lost by a truncation is the truncated block's"],
     run,
     replay,
@@ -460,6 +460,20 @@ fn enumerated(seed: u64, tier: Tier) -> Vec<Case> {
         for k in 1..=3 {
             v.push(mk(Fault::Enospc { k, file: None }));
             v.push(mk(Fault::Enospc { k, file: Some(k as u8) }));
+            v.push(mk(Fault::Kill { syscall: "write".into(), k }));
+        }
+    }
+    // the same for the two table-producing callbacks: 125 000 funded addresses make the balances table (5 MB) and
+    // the unspent table (15 MB) larger than the 4 MB buffer, so the table is written in several large writes
+    let scripts: Vec<Vec<u8>> = (0..125_000usize).map(|i| { let mut s = vec![0x76, 0xa9, 0x14]; s.extend([(i & 0xff) as u8, (i >> 8) as u8, (i >> 16) as u8, 0x5a].iter().cycle().take(20)); s.extend([0x88, 0xac]); s }).collect();
+    let tables = vpmodel::spec::chain_from_scripts(vpmodel::chain::Coin::Bitcoin, &scripts, &[1000, 2500, 7, 123_456_789], 2500, 10, 0, 1_400_000_000);
+    for cb in [Callback::Balances, Callback::UnspentCsvDump] {
+        let mk = |fault: Fault| Case { chain: tables.clone(), nfiles: 2, cb, start: None, end: None, fault, stale_tmp: false };
+        for (num, delta) in [(1u32, 0i32), (5, 0), (8, -1)] {
+            v.push(mk(Fault::Fsize { num, den: 8, delta }));
+        }
+        for k in 1..=2 {
+            v.push(mk(Fault::Enospc { k, file: None }));
             v.push(mk(Fault::Kill { syscall: "write".into(), k }));
         }
     }
